@@ -8,6 +8,7 @@ import (
 	"strings"
 
 	"github.com/acquirecloud/golibs/container/iterable"
+	"github.com/acquirecloud/golibs/zverif/vsync"
 	"verifh/internal/bfs"
 )
 
@@ -46,6 +47,8 @@ type Sys struct {
 	log                  []entry
 	cur                  []int // model cursor per slot, -1 closed
 }
+
+func init() { vsync.DeterministicPools = true }
 
 func New(keys, vals, iters int) *Sys {
 	s := &Sys{Keys: keys, Vals: vals, MaxIters: iters, m: iterable.NewMap[int, int]()}
@@ -271,6 +274,8 @@ func (s *Sys) Key() string {
 	for _, p := range pos {
 		fmt.Fprintf(&b, "%d,", p)
 	}
+	// the free list is implementation state too: a recycled node may carry stale fields
+	b.WriteString("#pool:" + strings.Join(iterable.VerifPoolDump(s.m), ","))
 	b.WriteByte('#')
 	// model: live entries and, per iterator, how many live entries precede its cursor
 	for _, e := range s.log {
